@@ -255,9 +255,34 @@ static bool own_rule(const std::string &prop, const std::string &rule) {
     return rule.compare(0, prop.size() + 1, prop + ".") == 0;
 }
 
+static std::string nontrivial_rule(const std::string &prop) {
+    static const std::map<std::string, std::string> r = {
+        {"C01", "program has >= 2 modules, at least one state-changing call refused by the state machine and at least one accepted transition"},
+        {"C02", "some accepted message had >= 2 eligible recipients or >= 1 running non-eligible module, and at least one user message was delivered"},
+        {"C03", "one dispatch call ran >= 2 handlers, or a handler left an errno value behind and another event of the same batch followed, or an event of a live signal/path/pid/task/threshold source was delivered"},
+        {"C04", "a module stopped/deregistered itself or unsubscribed inside a callback with messages in flight, or a reference was released after its owner was deregistered, or a message from a deregistered (zombie) sender was delivered, or a pipe-filling burst was sent"},
+        {"C07", "teardown with a non-IDLE module present, a duplicate context registration, a call on a thread without context, registration after finalize, or an automatic release of the context"},
+        {"C08", "one recipient received >= 2 messages from >= 2 senders or across >= 2 handler invocations, or a poison pill was honoured"},
+        {"C09", "two keys of one source kind coexisted in a module and a duplicate registration or a removal by key followed"},
+        {"C13", "batch size > 1, a batch timeout or a low-priority subscription was in force and one handler invocation carried >= 2 events"},
+        {"C15", "a restricted call (deny-pub / deny-sub / context call under deny-ctx / deregistration of a persistent module while looping / reserved topic / duplicate name / replacement) was attempted"},
+        {"C16", "m_mod_unstash with a finite n was issued on a non-empty stash"},
+        {"C17", "a delivery was observed while the become stack was non-empty and another one after an unbecome or a stop"},
+        {"C18", "at least one token-consuming call was refused with EAGAIN and a later one was accepted"},
+        {"C19", "a subscriber received a system notification about a transition of another module"},
+        {"C20", "a timer/signal/path/pid/task/threshold source was live, or an auto-close / duplicated descriptor was registered, or the library closed an auto-close descriptor"},
+    };
+    auto it = r.find(prop);
+    return it == r.end() ? "see DESIGN.md section 4" : it->second;
+}
+
 int main(int argc, char **argv) {
     rcm::Engine<Prog> E;
-    E.rule_text = "rapidcheck-generated actor programs (<= 4 modules with scripted eval/start/stop/event callbacks of <= 4 re-entrant ops, <= 45 top-level ops incl. dispatch/drain steps; op weights per property profile) executed in a forked child against the ASan/UBSan build with a lock-step reference model (life-cycle state machine, per-module mailbox, subscriptions with libc regex, handler stack, stash FIFO, batching settings, source sets, context life cycle); every API return value, every callback and every event list is checked against the model, plus allocator/descriptor accounting after teardown. Distinct = distinct program text; non-trivial rule per property in DESIGN.md section 4.";
+    {
+        rt::Args a0 = rt::parse_args(argc, argv);
+        E.rule_text = "Non-trivial (" + a0.prop + (a0.profile.empty() ? "" : "/" + a0.profile) + "): " + nontrivial_rule(a0.prop) + ". Generation: ";
+    }
+    E.rule_text += "rapidcheck-generated actor programs (<= 4 modules with scripted eval/start/stop/event callbacks of <= 4 re-entrant ops, <= 45 top-level ops incl. dispatch/drain steps; op weights per property profile) executed in a forked child against the ASan/UBSan build with a lock-step reference model (life-cycle state machine, per-module mailbox, subscriptions with libc regex, handler stack, stash FIFO, batching settings, source sets, context life cycle); every API return value, every callback and every event list is checked against the model, plus allocator/descriptor accounting after teardown. Distinct = distinct program text.";
     E.gen = gen_prog;
     E.eval = [](const Prog &p, const rt::Args &a) {
         rt::Verdict v = run_actor_program(p, a.prop);
